@@ -10,6 +10,9 @@
 //                       (own mapper). Frames are written by the real `on_transmit`s into the
 //                       crate's `MockWriteContext`, travel as encoded bytes through a bag of
 //                       packets and are decoded again by the real frame decoder.
+//   c13.cid_starved     c13.cid without the environment assumption below: A may be starved of
+//                       registration / transmission opportunities for arbitrarily long; only the
+//                       clauses starvation cannot excuse are checked (see `CidCfg::starved`).
 //   c13.peer_adversary  real PeerIdRegistry fed by a scripted honest issuer; at every reachable
 //                       state every adversarial NEW_CONNECTION_ID of the catalogue is tried.
 //   c13.pathmgr         the consumer side once more, with the REAL `path::Manager<Server>` around
@@ -41,7 +44,8 @@
 // registration + transmission opportunity for `MAX_STALL` (10 s) or longer while it has
 // something to send. Without it the timer-driven removal of a retiring id (EXPIRATION_BUFFER =
 // 30 s after the retirement request) could precede the very first NEW_CONNECTION_ID that carries
-// the request, which says nothing about the registry logic.
+// the request, which says nothing about the registry logic. (Family c13.cid only; c13.cid_starved
+// drops the assumption together with the one clause it protects.)
 #![allow(clippy::all)]
 
 #[path = "/verif/engines/mccore/mccore.rs"]
@@ -209,6 +213,15 @@ struct CidCfg {
     /// 1 = routed until a retirement request has *reached* B, 2 = routed until B's RETIRE arrives
     /// (the SHOULD of §5.1.2)
     route_level: u8,
+    /// family c13.cid_starved: A may be denied registration / transmission opportunities for
+    /// arbitrarily long (congestion- or amplification-blocked, black-holed connection with a long
+    /// idle timeout): `Tick` is never gated by `MAX_STALL`. Only what starvation cannot excuse is
+    /// checked then: the routing MUST (`c13.cid.route`) is off, because A removes a retiring id by
+    /// timer 30 s after it *decided* to request the retirement and a starved A may not have been
+    /// able to put that request on the wire by then (that is an availability consequence of the
+    /// starvation, not a fault of the registry); B's path glue ops are left out (they do not
+    /// interact with A's timers) to keep the family small.
+    starved: bool,
     wall: f64,
 }
 
@@ -224,6 +237,7 @@ impl CidCfg {
             )
             .set("varlife", self.varlife)
             .set("route_level", self.route_level)
+            .set("starved", self.starved)
             .set("max_stall_s", MAX_STALL.as_secs())
     }
 }
@@ -423,9 +437,40 @@ impl CidSys {
             let n = self.m.issued.len() as u64;
             //= RFC 9000 §5.1.1: "The sequence number on each newly issued connection ID MUST
             //= increase by 1."
+            if self.cfg.starved && f.seq > n {
+                // A starved issuer may have registered an id and withdrawn it again (lifetime
+                // timer) before it ever got a chance to send it. On the wire that is
+                // indistinguishable from a NEW_CONNECTION_ID that was lost and, being below
+                // Retire Prior To by then, rightly never retransmitted (§19.15 expects receivers
+                // to cope with exactly that). So a gap is tolerated iff every skipped number was
+                // assigned (registered, in order) and this frame already asks to retire it.
+                for k in n..f.seq {
+                    ensure((k as usize) < self.m.registered.len() && f.rpt > k, "c13.cid.seq_consecutive", || {
+                        format!(
+                            "first transmission of sequence number {} (retire_prior_to {}) skips {} which was {}",
+                            f.seq,
+                            f.rpt,
+                            k,
+                            if (k as usize) < self.m.registered.len() { "never withdrawn" } else { "never assigned" }
+                        )
+                    })?;
+                    let (id, token) = self.m.registered[k as usize].clone();
+                    self.m.issued.push(Issued { id, token, delivered: false, retire_received: false });
+                }
+            }
+            let n = self.m.issued.len() as u64;
             ensure(f.seq <= n, "c13.cid.seq_consecutive", || {
                 format!("first transmission of sequence number {} while only 0..{} were issued", f.seq, n)
             })?;
+            if self.cfg.starved && f.seq == n {
+                //= RFC 9000 §5.1.1: "The sequence number on each newly issued connection ID MUST
+                //= increase by 1." - the n-th registered id carries sequence number n
+                ensure(
+                    self.m.registered.get(n as usize).map_or(false, |(id, tok)| *id == f.id && *tok == f.token),
+                    "c13.cid.seq_consecutive",
+                    || format!("sequence number {} is not carried by the {}-th registered id: {:?}", f.seq, n, f),
+                )?;
+            }
             if f.seq == n {
                 //= RFC 9000 §5.1: "the same connection ID MUST NOT be issued more than once on
                 //= the same connection"; property: pairwise distinct ids and reset tokens
@@ -717,7 +762,7 @@ impl CidSys {
                     //= connection IDs until they are retired by the peer."
                     // MUST: no RETIRE received and no retirement request sent => routed.
                     // After a request was put on the wire only the SHOULD applies (measured).
-                    if !it.retire_received {
+                    if !it.retire_received && !self.cfg.starved {
                         ensure((seq as u64) < self.m.max_rpt_sent, "c13.cid.route", || {
                             format!(
                                 "id {} (seq {}) is no longer routed to A although B has not retired it and A never sent a Retire Prior To above it (largest sent: {})",
@@ -770,7 +815,7 @@ impl CidSys {
         self.b_tx = w.b.has_transmission_interest();
         self.a_timer = w.a.next_expiration();
         let busy = self.a_wants_id || self.a_tx;
-        self.busy_since = if busy { Some(self.busy_since.unwrap_or(self.now)) } else { None };
+        self.busy_since = if busy && !self.cfg.starved { Some(self.busy_since.unwrap_or(self.now)) } else { None };
     }
 }
 
@@ -817,7 +862,9 @@ impl Sys for CidSys {
         for i in 0..self.a2b.len() {
             v.push(Op::ALose(i));
         }
-        if w.b_paths.len() < 2 {
+        if self.cfg.starved {
+            // see `CidCfg::starved`
+        } else if w.b_paths.len() < 2 {
             v.push(Op::BConsumeNewPath);
         } else {
             v.push(Op::BMigrate);
@@ -841,7 +888,7 @@ impl Sys for CidSys {
         if let Some(t) = self.a_timer {
             let target = t.max(self.now);
             let stalled = self.busy_since.map_or(false, |b| target.saturating_duration_since(b) >= MAX_STALL);
-            if !stalled {
+            if !stalled || self.cfg.starved {
                 v.push(Op::Tick);
             }
         }
@@ -981,9 +1028,9 @@ fn pn_of(pn: u64) -> PacketNumber {
     s2n_quic_core::packet::number::PacketNumberSpace::ApplicationData.new_packet_number(VarInt::new(pn).unwrap())
 }
 
-fn cid_cfg(tier: Tier) -> CidCfg {
+fn cid_cfg(tier: Tier, starved: bool) -> CidCfg {
     let varlife = std::env::var("VERIF_CID_VARLIFE").map_or(false, |v| v == "1");
-    let mut cfg = cid_cfg_tier(tier, varlife);
+    let mut cfg = if starved { cid_cfg_starved(tier, varlife) } else { cid_cfg_tier(tier, varlife) };
     cfg.route_level = std::env::var("VERIF_CID_ROUTE_LEVEL").ok().and_then(|d| d.parse().ok()).unwrap_or(0);
     // experimentation only (not set by /verif/check)
     if let Some(d) = std::env::var("VERIF_CID_DEPTH").ok().and_then(|d| d.parse().ok()) {
@@ -1001,6 +1048,7 @@ fn cid_cfg_tier(tier: Tier, varlife: bool) -> CidCfg {
             rotations: &[(true, true), (false, false), (true, false), (false, true)],
             varlife,
             route_level: 0,
+            starved: false,
             wall: 55.0,
         },
         Tier::Thorough => CidCfg {
@@ -1010,15 +1058,35 @@ fn cid_cfg_tier(tier: Tier, varlife: bool) -> CidCfg {
             rotations: &[(true, true), (false, false), (true, false), (false, true)],
             varlife,
             route_level: 0,
+            starved: false,
             wall: 570.0,
         },
     }
 }
 
-fn run_cid(tier: Tier, out: &mut Output) {
-    let cfg = cid_cfg(tier);
+/// bounds of family c13.cid_starved (see `CidCfg::starved`)
+fn cid_cfg_starved(tier: Tier, varlife: bool) -> CidCfg {
+    CidCfg {
+        depth: tier.pick(10, 13),
+        bag_cap: 3,
+        limits: &[2, 3, 4],
+        rotations: &[(true, true), (false, false), (true, false), (false, true)],
+        varlife,
+        route_level: 0,
+        starved: true,
+        wall: tier.pick(25.0, 300.0),
+    }
+}
+
+fn run_cid(tier: Tier, starved: bool, out: &mut Output) {
+    let cfg = cid_cfg(tier, starved);
+    X_MAX_UNRETIRED_OVER_LIMIT.store(0, Ordering::Relaxed);
+    X_SHOULD_ROUTE_GAP.store(0, Ordering::Relaxed);
+    X_UNDELIVERABLE_RETIRE_PACKETS.store(0, Ordering::Relaxed);
+    X_B_CLOSED.lock().unwrap().clear();
     let init = move || CidSys::new(cfg);
-    let mut rep = explore(ENGINE, "c13.cid", cfg.json(), &init, &Limits::depth(cfg.depth).wall(cfg.wall));
+    let family = if starved { "c13.cid_starved" } else { "c13.cid" };
+    let mut rep = explore(ENGINE, family, cfg.json(), &init, &Limits::depth(cfg.depth).wall(cfg.wall));
     rep.extra.push(("x_max_unretired_over_limit_without_may_allowance".into(), X_MAX_UNRETIRED_OVER_LIMIT.load(Ordering::Relaxed).into()));
     rep.extra.push(("x_max_ids_unrouted_after_request_before_retire".into(), X_SHOULD_ROUTE_GAP.load(Ordering::Relaxed).into()));
     rep.extra.push(("x_retire_packet_hit_unrouted_dcid".into(), X_UNDELIVERABLE_RETIRE_PACKETS.load(Ordering::Relaxed).into()));
@@ -2355,11 +2423,22 @@ fn finish(out: Output, name: &str) {
 
 #[test]
 fn c13_cid() {
+    cid_test(false);
+}
+
+/// family c13.cid_starved (named so that the filter `verif_txmc_cid::c13_cid` does not match it)
+#[test]
+fn c13_starved_cid() {
+    cid_test(true);
+}
+
+fn cid_test(starved: bool) {
     let tier = Tier::from_env();
     quiet_panics();
-    if let Some(req) = replay_requested("c13.cid") {
+    if let Some(req) = replay_requested(if starved { "c13.cid_starved" } else { "c13.cid" }) {
         if let Some(hist) = req {
-            let mut cfg = cid_cfg(tier);
+            let mut cfg = cid_cfg(tier, starved);
+            // (the op lists of c13.cid_starved do not depend on the tier: only the depth differs)
             if let Some((v, l)) = replay_varlife() {
                 cfg.varlife = v;
                 cfg.route_level = l;
@@ -2370,8 +2449,8 @@ fn c13_cid() {
         return;
     }
     let mut out = Output::new();
-    run_cid(tier, &mut out);
-    finish(out, "txmc_cid.c13_cid");
+    run_cid(tier, starved, &mut out);
+    finish(out, if starved { "txmc_cid.c13_starved_cid" } else { "txmc_cid.c13_cid" });
 }
 
 #[test]
